@@ -39,7 +39,7 @@ MUTANTS = [
      "ids 0 / false / '' ... are answered with null (and 0 raises: response without id)"),
     ("c03-batch-order-reversed", "C03", S, "                elif resp_entry is not None:\n                    responses.append(resp_entry)",
      "                elif resp_entry is not None:\n                    responses.insert(0, resp_entry)", "batch results in reverse order"),
-    ("c03-invalid-entry-id-dropped", "C03", S, '            "Invalid request parameters or method.",\n            rpcid=rpcid,',
+    ("c03-invalid-entry-id-dropped", "C03", S, '            "Invalid request parameters or method.",\n            rpcid=_writable_id(rpcid),',
      '            "Invalid request parameters or method.",', "invalid entries lose their id"),
     ("c03-truthiness-notification-test", "C03", S, 'is_notification = "id" not in request or request["id"] in (None, "")',
      'is_notification = not request.get("id")', "requests with id 0 / false / [] are treated as notifications: never answered"),
@@ -161,6 +161,7 @@ MUTANTS = [
     ("c04-tuple-params-reverted", "C04", S, "                if isinstance(params, (utils.ListType, utils.TupleType)):\n                    return func(*params)", "                if isinstance(params, utils.ListType):\n                    return func(*params)", "a notification with tuple params is never executed again"),
     ("c03-unwritable-id-reverted", "C03", S, "                rpcid=self.__writable_id(request[\"id\"]),", "                rpcid=request[\"id\"],", "the error about an unwritable id carries that id again"),
     ("c13-unwritable-id-reverted", "C13", S, "                rpcid=self.__writable_id(request[\"id\"]),", "                rpcid=request[\"id\"],", "the error about an unwritable id carries that id again (server-form fallback)"),
+    ("c03-validate-unwritable-id-reverted", "C03", S, "            \"Invalid request parameters or method.\",\n            rpcid=_writable_id(rpcid),", "            \"Invalid request parameters or method.\",\n            rpcid=rpcid,", "validation errors carry an unwritable id again"),
     ("c17-cgi-byte-read-reverted", "C17", S, "            request_text = utils.from_bytes(reader.read(length))", "            request_text = sys.stdin.read(length)", "the CGI handler reads characters again"),
     ("c19-2xx-accepted", "C19", J, "            if response.status == 200:", "            if response.status < 300:", "201/202 replies parsed as results"),
     ("c20-ignore-not-propagated", "C20", K, "                attrs[attr_name] = dump(\n                    attr_value,\n                    serialize_method,\n                    ignore_attribute,\n                    ignore,\n                    config,\n                )",
